@@ -346,27 +346,27 @@ Definition table_for (top : symtab) (e : expr) : Prop :=
 Lemma nst_get_new top n : nst_get (nst_new top) n = assoc_str n top.
 Proof. reflexivity. Qed.
 
-Lemma atom_head top h : plain_value h = true -> name_ok h = false \/ all_digits h = true ->
-  (forall n, name_ok n = false \/ all_digits n = true -> assoc_str n top = None) ->
+Lemma atom_head st h : plain_value h = true -> name_ok h = false \/ all_digits h = true ->
+  (forall n, name_ok n = false \/ all_digits n = true -> nst_get st n = None) ->
   match h with String c _ => Ascii.eqb c c_bar = false | EmptyString => True end ->
-  atom_item (nst_new top) h = POk (ISym h).
+  atom_item st h = POk (ISym h).
 Proof.
   intros Hp Hk Ht Hb. unfold atom_item, ltok_of_atom. destruct h as [|c r].
-  - rewrite early_plain by assumption. rewrite nst_get_new, (Ht _ Hk). reflexivity.
-  - rewrite Hb. rewrite early_plain by assumption. rewrite nst_get_new, (Ht _ Hk). reflexivity.
+  - rewrite early_plain by assumption. rewrite (Ht _ Hk). reflexivity.
+  - rewrite Hb. rewrite early_plain by assumption. rewrite (Ht _ Hk). reflexivity.
 Qed.
 
-Lemma atom_symbol top n t :
-  name_ok n = true -> assoc_str n top = Some (sym_of n t) ->
-  atom_item (nst_new top) (escape_id n) = POk (IExpr (sym_of n t)).
+Lemma atom_symbol st n e :
+  name_ok n = true -> nst_get st n = Some e ->
+  atom_item st (escape_id n) = POk (IExpr e).
 Proof.
   intros Hn Ha. destruct (name_ok_facts n Hn) as (Hs & _). unfold escape_id in *.
   destruct (is_simple_id n) eqn:Es.
   - unfold atom_item, ltok_of_atom. destruct n as [|c r]; [discriminate|].
     rewrite (is_simple_id_first _ c r eq_refl Es).
-    rewrite early_plain by (now apply simple_plain). now rewrite nst_get_new, Ha.
+    rewrite early_plain by (now apply simple_plain). now rewrite Ha.
   - unfold atom_item. change (String.append "|" (String.append n "|")) with (String c_bar (String.append n "|")) in *.
     unfold ltok_of_atom. change (Ascii.eqb c_bar c_bar) with true. cbv iota.
     unfold symbol_name in Hs. change (Ascii.eqb c_bar c_bar) with true in Hs. cbv iota in Hs. rewrite Hs.
-    unfold lookup_sym. now rewrite nst_get_new, Ha.
+    unfold lookup_sym. now rewrite Ha.
 Qed.
